@@ -68,13 +68,16 @@ pub enum Doc {
 
 /// statements that fail in different places: name lookup, a kernel, an index, inside the body of a user function defined in the same fence
 /// (plain body and match-arm form), a match without a matching arm
-pub const FAILING: [(&str, &str); 6] = [
-  ("undefined-name", "q := undefined_name"),
+pub const FAILING: [(&str, &str); 8] = [
+  ("undefined-name", "q := undefinedname"),
   ("kernel-shape", "q := [1 2] + [1 2 3]"),
   ("index-out-of-range", "w := [1 2 3]\nq := w[7]"),
   ("user-function-body", "bad(i<f64>) = z<f64> := m := [10 20 30]; z := m[i].\nq := bad(7)"),
-  ("user-function-arm-body", "pick(i<f64>) => <f64>\n  ├ 0 => 1\n  └ n => [10 20 30][n].\nq := pick(7)"),
+  ("user-function-arm-body", "pk(n<u8>) => <u8>\n  | 0u8 => 1u8\n  | n => n + 200u8.\nq := pk(100u8)"),
   ("u8-overflow", "o<u8> := 200\nq := o + o"),
+  // the body fails with an ordinary error (no panic): an undefined variable inside the function
+  ("user-function-body-error", "broken(n<f64>) = r<f64> :=\n  r := n + qq.\nq := broken(1)"),
+  ("user-function-arm-body-error", "brk(n<f64>) => <f64>\n  | 0 => 1\n  | n => n + qq.\nq := brk(1)"),
 ];
 pub const NAMESPACES: [&str; 6] = ["", "alpha", "beta", "hidden_layer", "disabled_units", "hidden2"];
 
@@ -92,7 +95,7 @@ pub fn docs(tier: Tier) -> Vec<Doc> {
     }
   }
   // fence layouts over the independent program: every assignment of 4 statements to {unnamed, alpha, beta}
-  for m in 0..81usize { let l: Vec<usize> = (0..4).map(|i| m / 3usize.pow(i as u32) % 3).collect(); v.push(Doc::Fences(l.clone(), None, PROGRAMS[3])); for f in 0..4 { if l[f] != 0 { for k in 0..FAILING.len() { if k == 0 || k == 3 || k == 4 || tier == Tier::Thorough || (m + 2 * f + k) % 3 == 0 { v.push(Doc::Fences(l.clone(), Some((f, k)), PROGRAMS[3])); } } } } }
+  for m in 0..81usize { let l: Vec<usize> = (0..4).map(|i| m / 3usize.pow(i as u32) % 3).collect(); v.push(Doc::Fences(l.clone(), None, PROGRAMS[3])); for f in 0..4 { if l[f] != 0 { for k in 0..FAILING.len() { if k == 0 || k == 3 || k == 6 || k == 7 || tier == Tier::Thorough || (m + 2 * f + k) % 3 == 0 { v.push(Doc::Fences(l.clone(), Some((f, k)), PROGRAMS[3])); } } } } }
   // namespaces whose names begin with a fence keyword are ordinary names
   for m in 0..81usize { let l: Vec<usize> = (0..4).map(|i| [0usize, 3, 4][m / 3usize.pow(i as u32) % 3]).collect(); v.push(Doc::Fences(l, None, PROGRAMS[3])); }
   for m in 0..27usize { let l: Vec<usize> = (0..3).map(|i| [0usize, 3, 5][m / 3usize.pow(i as u32) % 3]).collect(); v.push(Doc::Fences(l, None, PROGRAMS[0])); }
@@ -187,14 +190,23 @@ impl UnitRunner for C10 {
           // reference: one independent interpreter per namespace, fed that namespace's statements in document order
           let mut used: Vec<usize> = layout.clone(); used.sort(); used.dedup();
           for ns in used {
+            // the reference never continues a session in which a statement failed (a failed statement changes nothing: C05): the statements
+            // that succeeded are replayed in a fresh interpreter, so that the reference does not inherit what a failure left behind
             let mut r = Session::new();
+            let mut done: Vec<String> = vec![];
             // an error ends the fence block it occurs in (block-level isolation); later blocks, of any namespace, still run
             let mut skip_block = false;
             for (i, st) in stmts.iter().enumerate() {
               if i > 0 && layout[i] != layout[i - 1] { skip_block = false; }
-              if layout[i] == ns && !skip_block { let t: &str = match fail { Some((fi, k)) if *fi == i => FAILING[*k].1, _ => st };
+              if layout[i] == ns && !skip_block {
+                let t: &str = match fail { Some((fi, k)) if *fi == i => FAILING[*k].1, _ => st };
                 // a fenced block is interpreted statement by statement; the failing "statement" may be several lines (a definition, then the call)
-                for line in split_statements(t) { if skip_block { break; } if !r.run(&line).is_value() && ns != 0 { skip_block = true; } } }
+                for line in split_statements(t) {
+                  if skip_block { break; }
+                  if r.run(&line).is_value() { done.push(line); }
+                  else { if ns != 0 { skip_block = true; } r = Session::new(); for d in &done { r.run(d); } }
+                }
+              }
             }
             let want = r.snapshot();
             let got: Option<Vec<(String, bool, Canon)>> = if ns == 0 { Some(snapshot_of(&di)) } else { let subs = di.sub_interpreters.borrow(); subs.get(&hash_str(NAMESPACES[ns])).map(|b| snapshot_of(b)) };
@@ -220,7 +232,7 @@ impl Check for C10 {
   fn drive(&mut self, tier: Tier, cfg: &PoolCfg, rep: &mut Report) {
     let n = self.ds.len() as u64;
     rep.rule = format!("{} documents: 3 base programs x every placement of one prose element (36 kinds: fences showing a fence of the other sigil or of a shorter run verbatim, titles, sections, paragraphs incl. ones that quote a define, lists, quotes, breaks, tables, plain / python / tilde / disabled fences containing a conflicting define, // and -- comments incl. ones with semicolons, callouts, equation, footnote, abstract, link) in every gap, {} placements of two; \
-      every assignment of 4 independent statements to {{unnamed, fence alpha, fence beta}} (81 layouts) with each fenced statement in turn replaced by a failing one (6 kinds: undefined name, kernel shape error, index out of range, the body of a user function defined in the fence in plain and match-arm form, integer overflow), the same with namespaces named hidden_layer / disabled_units / hidden2, and chained statements across namespaces; oracle: bindings of the document = bindings of its code-only rendering; per namespace = an independent interpreter fed that namespace's statements; evaluations = documents; non-trivial = documents that parse", n, if tier == Tier::Quick { "a fixed quarter of all" } else { "all" });
+      every assignment of 4 independent statements to {{unnamed, fence alpha, fence beta}} (81 layouts) with each fenced statement in turn replaced by a failing one (8 kinds: undefined name, kernel shape error, index out of range, the body of a user function defined in the fence in plain and match-arm form, integer overflow), the same with namespaces named hidden_layer / disabled_units / hidden2, and chained statements across namespaces; oracle: bindings of the document = bindings of its code-only rendering; per namespace = an independent interpreter fed that namespace's statements; evaluations = documents; non-trivial = documents that parse", n, if tier == Tier::Quick { "a fixed quarter of all" } else { "all" });
     rep.assumptions = vec!["documents that do not parse are owned by C09 (counted, listed)".into(), "`ans`, out_values, returned ids of prose and HTML are not judged".into()];
     rep.cov("bounds", json!({"documents": n, "prose_elements": PROSE.len()}));
     let ds = self.ds.clone();
